@@ -155,7 +155,7 @@ def run(ctx):
     exh_cases = ctx.emitted(g["out"])
     if len(exh_cases) != g["out"].count('<<"CASE"'):
         raise vlib.Inconclusive("generator output garbled: %d of %d CASE lines parsed" % (len(exh_cases), g["out"].count('<<"CASE"')))
-    nsim = 1000 if q else 5000
+    nsim = 1000 if q else 4000
     depth = (12 if q else 24) + 1
     s = ctx.tlc("PllMC", "Pll_sim.cfg" if q else "Pll_simdeep.cfg", workers=1, timeout=900,
                 simulate="num=%d" % nsim, depth=depth, tag="sim")
